@@ -5,6 +5,8 @@
 -/
 import FcGen.Tables
 import FcProofs.Lemmas.PyLiteC11
+import FcProofs.Lemmas.PyLiteC11Matching
+set_option linter.unusedSimpArgs false
 namespace Fc
 open PyLite PyLite.C11
 
@@ -38,5 +40,67 @@ theorem C11_source_fc_suite_status (s : Suite) :
   cases d
   · rfl
   · cases f <;> simp only [Gen.c11FcSuiteStatusSrc, suiteVal, predResultVal, Suite.bool] <;> pylite_eval
+
+/-! ### `_matching.find_matches` (added in phase 4: `Fc.Gen.c11FindMatchesSrc`, harness/fcv/tables/pylite_c11_matching.py)
+
+The nested helper `_find_and_add` (a loop over the live `orphans_target` with `matches.append`,
+`orphans_target.remove(t)` and `return True`) is inlined by the translator where the comprehension
+`[s for s in source if not _find_and_add(s)]` calls it; the comprehension is the loop it abbreviates. -/
+
+open PyLite.C11M in
+/-- `find_matches(source, reference, eq_predicate)` is the model's `findMatches` (FcModel/Matching.lean) for
+    EVERY predicate and all lists: each source element takes the first remaining reference element it matches,
+    `remove` takes out exactly that occurrence, unmatched source elements are collected in order, the
+    remaining reference elements are the reference orphans; the three lists go into the `MatchResult` in the
+    order (matches, orphans_in_source, orphans_in_reference).
+    Assumptions (stated, not derived): `eq_predicate(s, t)` returns the Boolean `eq s t` (`hcall`; `fv` is the
+    callable passed as third argument); the reference elements are values whose Python `==` is equality
+    (`hemb` — `list.remove` compares with `==`); `MatchResult(a, b, c)` builds the record (`hres`). -/
+theorem C11_source_find_matches {α β : Type} [DecidableEq β] (embS : α → Val) (embR : β → Val)
+    (hemb : ∀ a b, Val.eqv (embR a) (embR b) = some (decide (a = b)))
+    (X : Ext) (fv : Val) (eq : α → β → Bool)
+    (hcall : ∀ a b, X "call" [fv, embS a, embR b] = .ok (.bool (eq a b)))
+    (hres : ∀ m o r, X "MatchResult" [m, o, r] = .ok (matchResultVal m o r))
+    (src : List α) (ref : List β) :
+    Gen.c11FindMatchesSrc.run X [.list (src.map embS), .list (ref.map embR), fv] =
+      .ok (matchResultVal (.list ((findMatches eq src ref).pairs.map (pairV embS embR)))
+            (.list ((findMatches eq src ref).orphansSrc.map embS))
+            (.list ((findMatches eq src ref).orphansRef.map embR))) := by
+  simp only [Gen.c11FindMatchesSrc]
+  pylite_eval
+  generalize hf : forLoop _ _ _ = r
+  have key := forLoop_fold_eq embS (step eq)
+    (fun acc st => st.env.lookup "v2" = some fv ∧ st.env.lookup "v3" = some (.list (acc.1.map (pairV embS embR))) ∧
+      st.env.lookup "v4" = some (.list (acc.2.2.map embR)) ∧ st.env.lookup "v5" = some (.list (acc.2.1.map embS)))
+    hf ([], [], ref) (by simp [List.lookup]) (by
+      rintro s ⟨M, O, R⟩ st ⟨e2, e3, e4, e5⟩
+      simp [e2, e3, e4, e5, List.lookup]
+      generalize hg : forLoop _ _ _ = r2
+      have inner := forLoop_find_eq embR (eq s)
+        (fun st => st.env.lookup "v2" = some fv ∧ st.env.lookup "v3" = some (.list (M.map (pairV embS embR))) ∧
+          st.env.lookup "v4" = some (.list (R.map embR)) ∧ st.env.lookup "v5" = some (.list (O.map embS)) ∧
+          st.env.lookup "v6" = some (embS s) ∧ st.env.lookup "v7" = some (embS s))
+        (fun t v st => v = .bool true ∧ st.env.lookup "v2" = some fv ∧
+          st.env.lookup "v3" = some (.list ((M ++ [(s, t)]).map (pairV embS embR))) ∧
+          st.env.lookup "v4" = some (.list ((R.erase t).map embR)) ∧ st.env.lookup "v5" = some (.list (O.map embS)) ∧
+          st.env.lookup "v6" = some (embS s))
+        hg (by simp [List.lookup, e2, e3, e4, e5]) (by
+          intro t ht st ⟨i2, i3, i4, i5, i6, i7⟩
+          constructor <;> intro hp
+          · simp [i2, i3, i4, i5, i6, i7, List.lookup, hcall, hp, removeFirst_map embR hemb, ht, pairV]
+            refine ⟨_, _, ⟨rfl, rfl⟩, rfl, ?_⟩
+            simp [List.lookup, i2, i5, i6]
+          · simp [i2, i3, i4, i5, i6, i7, List.lookup, hcall, hp])
+      cases hfind : R.find? (eq s) with
+      | none =>
+        rw [hfind] at inner
+        obtain ⟨st2, rfl, i2, i3, i4, i5, i6, i7⟩ := inner
+        simp [step, hfind, i2, i3, i4, i5, i6, i7, List.lookup]
+      | some t =>
+        rw [hfind] at inner
+        obtain ⟨v, st2, rfl, rfl, i2, i3, i4, i5, i6⟩ := inner
+        simp [step, hfind, i2, i3, i4, i5, i6, List.lookup])
+  obtain ⟨st', rfl, e2, e3, e4, e5⟩ := key
+  simp [foldl_step, hres, e2, e3, e4, e5]
 
 end Fc
